@@ -83,6 +83,8 @@ def _case(draw: Any, max_cap: int, max_ops: int) -> dict[str, Any]:
         "align_us": draw(st.sampled_from([0, 0, 300_000, 123_456_000_000])),
         "container": draw(st.sampled_from(["list", "numpy", "numpy", "mw"])),
         "start_slot": draw(st.integers(0, 50)),
+        # sample and query timestamps are expressed in this fixed-offset zone (same instants)
+        "tz_offset_min": draw(st.sampled_from([0, 0, 0, 120, -330, 765])),
         "ops": ops,
     }
 
@@ -201,8 +203,11 @@ def run_case(case: Any, pid: str) -> Verdict:
     drv = _Driver(case)
     align = drv.align
 
+    # the same instants, expressed in a generated fixed-offset time zone (aware datetimes compare by instant)
+    tz = timezone(timedelta(minutes=case.get("tz_offset_min", 0)))
+
     def ts_of(slot: int, frac100: int = 0) -> datetime:
-        return align + timedelta(microseconds=slot * p_us + (p_us * frac100) // 100)
+        return (align + timedelta(microseconds=slot * p_us + (p_us * frac100) // 100)).astimezone(tz)
 
     def slot_of(dt: datetime) -> int:
         return (dt - align) // timedelta(microseconds=p_us)
@@ -406,6 +411,8 @@ def run_case(case: Any, pid: str) -> Verdict:
     if case["container"] == "mw":
         v.labels.add("moving_window")
     v.labels.add("container_" + case["container"])
+    if case.get("tz_offset_min"):
+        v.labels.add("timestamps_in_a_non_utc_zone")
     v.nontrivial = (state["ooo"] or state["gap"]) and state["qual_query"]
     return v
 
